@@ -10,6 +10,7 @@ matching relation (which chiplet column carries which operand) is taken from the
    MLOAD / MSTORE    <-> memory row with word (s0', h2, h1, h0)
    SPAN / JOIN / SPLIT / LOOP / CALL / DYN <-> hasher row starting the block's hash (rate = h0..h7, capacity = (0, opcode | 0, 0, 0))
    END               <-> hasher row returning the block hash (digest = h0..h3)
+   HPERM             <-> the hasher row starting the permutation and the row returning the state (state j = stack 11-j)
    RESPAN            <-> hasher row absorbing the next batch (ABP, last row of a hash cycle), addressed by the
                          next batch's hasher address and not by the decoder row
 z3 decides  matching  =>  request == response, and that rows which are not the last of a bitwise cycle
@@ -39,9 +40,10 @@ class Columns2(Columns):
     cells q/r); any other row a piece of code reaches gets its own cells x<row>_<col>, so a request that reads
     the wrong rows simply fails to match"""
 
-    def __init__(self, it, consts, base, chip_consts, op_row=0, next_consts=None):
+    def __init__(self, it, consts, base, chip_consts, op_row=0, next_consts=None, extra=None):
         super().__init__(it, consts)
         self.base, self.chip_consts, self.op_row, self.next_consts = base, chip_consts, op_row, next_consts or {}
+        self.extra = extra or {}  # further named rows: row -> (cell prefix, {col: const})
 
     def cell(self, col, row):
         if row == self.op_row:
@@ -54,6 +56,9 @@ class Columns2(Columns):
             return F(Lin({}, self.chip_consts[col]))
         if row in (self.base, self.base + 1):
             return F(self.it.ctx.var(("q" if row == self.base else "r") + str(col)))
+        if row in self.extra:
+            pref, cs = self.extra[row]
+            return F(Lin({}, cs[col])) if col in cs else F(self.it.ctx.var(pref + str(col)))
         return F(self.it.ctx.var(f"x{row}_{col}"))
 
     def column(self, col):
@@ -75,14 +80,14 @@ class _LazyColumn(list):
         return super().__getitem__(i)
 
 
-def run_pair(interp, op_consts, chip_row, chip_consts, op_row=0, next_consts=None):
+def run_pair(interp, op_consts, chip_row, chip_consts, op_row=0, next_consts=None, extra=None, second_row=None):
     req = [n for n in interp.fns if n.endswith("::get_requests_at") and "chiplets/aux_trace/mod.rs:7" in n]
     rsp = [n for n in interp.fns if n.endswith("::get_responses_at") and "chiplets/aux_trace/mod.rs:7" in n]
     assert len(req) == 1 and len(rsp) == 1, (req, rsp)
 
     def make_run(it):
         it.begin_run(None)
-        cm = Columns2(it, op_consts, chip_row, chip_consts, op_row, next_consts)
+        cm = Columns2(it, op_consts, chip_row, chip_consts, op_row, next_consts, extra)
         mt = Struct()
         mt[0] = cm
         alphas = [F(it.ctx.var(f"al{i}")) for i in range(16)]
@@ -91,6 +96,10 @@ def run_pair(interp, op_consts, chip_row, chip_consts, op_row=0, next_consts=Non
         def thunk():
             a = it.run_fn(it.fns[req[0]].parsed(), [Opaque("builder"), Ref({"m": mt}, "m"), alphas, I(op_row, "usize")])
             b = it.run_fn(it.fns[rsp[0]].parsed(), [Opaque("builder"), Ref({"m": mt}, "m"), alphas, I(chip_row, "usize")])
+            if second_row is not None:
+                # operations that send two messages: the request is the product, so is the response side
+                b2 = it.run_fn(it.fns[rsp[0]].parsed(), [Opaque("builder"), Ref({"m": mt}, "m"), alphas, I(second_row, "usize")])
+                b = F(it.ctx.mul(b.l, b2.l))
             return [a, b]
         return thunk
     return interp.explore(make_run)
@@ -150,13 +159,20 @@ def main():
     cases.append(dict(op="End", chip_row=23, op_row=40, cur_consts={DEC: 17}, chip={ch: 0, HS: 0, HS + 1: 0, HS + 2: 0},
                       what="hasher row returning the block hash (HOUT)",
                       match=lambda cur, nxt, q: [(q(HST + 4 + i), cur(DH + i)) for i in range(4)] + [(q(HIDX), Lin({}, 0))]))
+    # HPERM <-> two hasher rows: the row that starts the permutation (BP, address 17 = chiplet row 16) holding the
+    # input state and the row that returns the whole state (SOUT, chiplet row 23); hasher state element j <-> stack item 11 - j
+    cases.append(dict(op="HPerm", chip_row=16, op_row=40, cur_consts={HP: 17}, chip={ch: 0, HS: 1, HS + 1: 0, HS + 2: 0, HIDX: 0},
+                      second_row=23, extra={23: ("u", {ch: 0, HS: 0, HS + 1: 0, HS + 2: 1, HIDX: 0}), 24: ("w", {})},
+                      what="hasher rows starting the permutation (BP) and returning the state (SOUT)",
+                      match=lambda cur, nxt, q: [(q(HST + j), cur(ST + 11 - j)) for j in range(12)],
+                      match2=lambda cur, nxt, u: [(u(HST + j), nxt(ST + 11 - j)) for j in range(12)]))
     for case in cases:
         opcode = meta.ops[case["op"]]["opcode"]
         op_consts = {int(k): v for k, v in meta.opcode_consts(opcode).items()}
         op_consts.update(case.get("cur_consts", {}))
         tag = f"bus:{case['op']} <-> {case['what']}"
         try:
-            paths = run_pair(interp, op_consts, case["chip_row"], case["chip"], case.get("op_row", 0), case.get("next_consts"))
+            paths = run_pair(interp, op_consts, case["chip_row"], case["chip"], case.get("op_row", 0), case.get("next_consts"), case.get("extra"), case.get("second_row"))
         except Unsupported as e:
             V.add(tag, "inconclusive", detail=str(e)[:300])
             continue
@@ -171,6 +187,9 @@ def main():
             nxt = lambda col: ctx.var(f"n{col}")  # noqa: E731
             q = lambda col: ctx.var(f"q{col}")  # noqa: E731
             rel = [ctx.eq(a, b) for a, b in case["match"](cur, nxt, q)]
+            if "match2" in case:
+                u = lambda col: ctx.var(f"u{col}")  # noqa: E731
+                rel += [ctx.eq(a, b) for a, b in case["match2"](cur, nxt, u)]
             if case.get("expect_one"):
                 goal, label = ctx.eq(rsp, Lin({}, 1)), "a row inside a bitwise cycle responds with 1"
             elif case.get("expect_diff"):
@@ -183,6 +202,10 @@ def main():
             s.add(ctx.side)
             s.add(res.pc)
             s.add(rel)
+            cov["queries"] += 1
+            if s.check() == z3.unsat:
+                V.add(f"{tag}#p{pi}: matching relation is satisfiable (vacuity guard)", "inconclusive", detail="the matching relation contradicts the path")
+                continue
             s.add(z3.Not(goal))
             r = s.check()
             cov["queries"] += 1
@@ -200,8 +223,8 @@ def main():
         samples=V.obligations[:8], obligations=len(V.obligations), discharged=c_.get("discharged", 0), queries=cov["queries"],
         functions_encoded=["processor chiplets::aux_trace::BusColumnBuilder::{get_requests_at, get_responses_at}, build_bitwise_request, build_mem_request_word, build_mem_request_element, "
                            "compute_memory_request, build_bitwise_chiplet_responses, build_memory_chiplet_responses, get_op_label (MIR)", "miden-air MainTrace accessors (MIR)"],
-        bounds="one operation row and one chiplet row, all cells and challenges symbolic; operations U32AND, U32XOR, MLOADW, MSTOREW, MLOAD, MSTORE; SPAN, JOIN, SPLIT, LOOP, CALL, DYN, RESPAN, END against the hasher (concrete hasher address 17, decoder row 40)",
-        not_covered="multiset equality over whole traces; HPERM / MPVERIFY / MRUPDATE, SYSCALL (kernel ROM), MSTREAM/PIPE/RCOMBBASE messages; decoder virtual tables; range-checker LogUp; the request side of the range checker (seed c03a)",
+        bounds="one operation row and one chiplet row, all cells and challenges symbolic; operations U32AND, U32XOR, MLOADW, MSTOREW, MLOAD, MSTORE; SPAN, JOIN, SPLIT, LOOP, CALL, DYN, RESPAN, END and HPERM (two messages) against the hasher (concrete hasher address 17, decoder row 40)",
+        not_covered="multiset equality over whole traces; MPVERIFY / MRUPDATE, SYSCALL (kernel ROM), MSTREAM/PIPE/RCOMBBASE messages; decoder virtual tables; range-checker LogUp; the request side of the range checker (seed c03a)",
         sources_fingerprint=repo_fingerprint(["processor/src/chiplets/aux_trace", "air/src/trace/main_trace.rs"]),
         evaluations=len(V.obligations), distinct_nontrivial=c_.get("discharged", 0), rule="one obligation per (operation, chiplet row kind, path)",
     )
@@ -216,6 +239,7 @@ BUS_PROGRAMS = {
     "Respan": "begin repeat.80 push.1 drop end end",
     "Span": "begin push.1 drop end", "End": "begin push.1 if.true push.2 drop else push.3 drop end end",
     "Join": "begin push.1 if.true push.2 drop else push.3 drop end push.4 drop end", "Split": "begin push.1 if.true push.2 drop else push.3 drop end end",
+    "HPerm": "begin push.1.2.3.4 hperm dropw dropw dropw end",
     "Loop": "begin push.1 while.true push.0 end end", "Call": "proc.f push.1 drop end begin call.f end", "Dyn": "begin push.1 drop end",
 }
 # further programs per operation: reads of addresses never written before (first access), several batches
